@@ -91,9 +91,10 @@ def custom(ctx):
 
 SPEC = {
     "id": "C08",
-    "gens": ["PanicSites", "ArithSites", "PipelineProps"],
+    "gens": ["PanicSites", "ArithSites", "PipelineProps", "UsageLoop"],
     "lean_modules": ["RsslVerif.Thm.C08", "RsslVerif.Model.DefinedLoc", "RsslVerif.Lemmas.DefinedLoc", "RsslVerif.Lemmas.ArithClasses",
-                     "RsslVerif.Model.PipelineProps", "RsslVerif.Lemmas.PipelineProps", "RsslVerif.Lemmas.PanicClasses"],
+                     "RsslVerif.Model.PipelineProps", "RsslVerif.Lemmas.PipelineProps", "RsslVerif.Lemmas.PanicClasses",
+                     "RsslVerif.Model.UsageDfs", "RsslVerif.Model.Usage", "RsslVerif.Spec.Usage", "RsslVerif.Lemmas.Usage"],
     "theorems": [T + n for n in [
         "panic_sites_classified", "parser_loops_as_modelled", "list_uses_reviewed", "parse_list_progress",
         "parse_list_fuel_irrelevant", "parse_multiple_progress", "parse_multiple_diverges_without_progress",
@@ -102,7 +103,8 @@ SPEC = {
         "stage_errors_rendered", "arith_sites_classified", "defined_shape_as_modelled", "defined_location_safe",
         "defined_location_needs_plain_rescan", "defined_indices_in_range", "scan_output_has_no_concat",
         "pipeline_duplicates_as_modelled", "pipeline_duplicate_reported_iff", "pipeline_state_asserts_unreachable",
-        "pipeline_located_compare_reaches_asserts", "panic_class_reasons_hold"]],
+        "pipeline_located_compare_reaches_asserts", "panic_class_reasons_hold",
+        "usage_loop_as_modelled", "usage_closure_terminates", "usage_closure_is_reachability", "usage_memo_dfs_overflows_on_cycle"]],
     "harness": "c08",
     "custom": custom,
     "finding_key": finding_key,
